@@ -41,11 +41,12 @@ HARNESSES["fault_enum_pat"] = {"srcs": ["src/harness/fault_enum.cc"], "variant":
 HARNESSES["fault_enum_zero"] = {"srcs": ["src/harness/fault_enum.cc"], "variant": "cl_zero"}
 HARNESSES["env_enum"] = {"srcs": ["src/harness/env_enum.cc"], "variant": "asan"}
 HARNESSES["subsecond"] = {"srcs": ["src/harness/subsecond.cc"], "variant": "asan"}
+HARNESSES["text_conf"] = {"srcs": ["src/harness/text_conf.cc"], "variant": "asan"}
 HARNESSES["fixed_posix"] = {"srcs": ["src/harness/fixed_posix.cc"], "variant": "asan"}
 HARNESSES["civil_conf"] = {"srcs": ["src/harness/civil_conf.cc"], "variant": "asan"}
 
 SETUP_VARIANTS = ["asan", "plain", "sched", "asan_rec", "cl_pattern", "cl_zero"]
-SETUP_HARNESSES = ["zone_conf", "civil_conf", "fixed_posix", "sched_explore", "hidden_state", "fault_enum", "fault_enum_pat", "fault_enum_zero", "env_enum", "subsecond"]
+SETUP_HARNESSES = ["zone_conf", "civil_conf", "fixed_posix", "sched_explore", "hidden_state", "fault_enum", "fault_enum_pat", "fault_enum_zero", "env_enum", "subsecond", "text_conf"]
 
 E1_LEVEL_NOTE = ("Trusted base: the reference model in /verif/src/common (128-bit calendar, RFC 9636 TZif reader, "
                  "POSIX TZ evaluator - written from the specifications, self-checked by a brute-force day walk), "
@@ -271,6 +272,21 @@ CHECKS["C12"] = {
     "vacuity": c12_vac, "budget": {"quick": 400, "thorough": 3000},
 }
 
+TEXT_NOTE = ("Trusted base: ref_text.h (left-to-right tokenizer/renderer/matcher written from the documentation in time_zone.h), ref_civil.h, glibc strftime/strptime "
+             "(the property itself defers to them); locale pinned to C. Zone lookups on the parse side of real zones use the library's own lookup(civil).pre, which C02 validates.")
+CHECKS["C07"] = mk_simple("C07", "text_conf", "format() then parse() returns the original instant",
+    "zones (19 fixed offsets incl. +-1 s, +-30 s, +-59 s, +-24h; 14 (25) shipped zones covering sub-minute LMT, 30/45-minute and date-line offsets; synthetic zones) x instants (civil years of 1..12 digits of either sign incl. year 0, the ends of the range +-{0,1,1 day}, each zone's first/last transitions and every 16th, +-1 s) x femtosecond values {0,1,9,10,99,101,10^6+-1,5e14,1e15-1,...} x generated lossless formats (8 date forms incl. %U/%W week dates, month names, %E4Y; 4 time forms; 5 offset forms (minute-resolution ones only for zones whose every offset is a whole minute); 3 orders; 3 separators) plus %s; each text parsed back in UTC, in the zone itself and in a zone with a gap there; class = year shape / sub-second sweep / %s",
+    "The composition law parse(fmt, format(fmt, t, fs, tz), any_zone) == (true, t, fs) is evaluated on the real library over the complete product (quick: a covering subset of format combinations in which every part value and every part pair with the date form occurs); no reference model needed.",
+    ["C07:negative-year", "C07:many-digit-year", "C07:plain-year", "C07:all-subseconds", "C07:percent-s"], TEXT_NOTE, min_eval=1000000)
+CHECKS["C08"] = mk_simple("C08", "text_conf", "format() renders exactly what lookup() reports; no UB",
+    "ALL token sequences of length <= 3 (4) over a 37-token alphabet (%, E, O, :, *, digits 0,1,4,9,15,18,19,1024,1025, every library-defined conversion letter, a, j, c, x, space, a UTF-8 byte pair, NUL) = 52,060 (1.9 M) format strings x a panel of 14 (zone, instant, femtoseconds) triples taking every field to its extreme; plus every documented specifier alone and in RFC3339/RFC1123 combinations, strftime-delegated specifiers with flags/modifiers, on every zone x probe; ASan+UBSan build; class = rendered / malformed (safety only) / C-library run beyond the documented buffer growth limit",
+    "Safety for every string (sanitizers, determinism); for well-formed strings the output must equal the reference rendering: library-defined specifiers rendered from lookup()'s fields by the documentation, every other run rendered by glibc strftime on a tm built independently from the same fields.",
+    ["C08:rendered", "C08:malformed"], TEXT_NOTE, min_eval=500000)
+CHECKS["C09"] = mk_simple("C09", "text_conf", "parse() accepts exactly well-formed in-range input",
+    "(a) complete product of field boundary values (11 years incl. INT64 limits and the first/last representable, months, days 1/28..31, hours, minutes, seconds 0/59/60, 11 offset spellings, 6 fraction lengths) through an RFC3339 format; every documented specifier alone with its accept/reject boundary inputs, with surrounding blanks, literals and other zones; (b) EVERY single edit (delete, replace, insert over 12 symbols) of 19 accepted (format, input) pairs, parsed in three zones; (c) zone interaction: skipped/repeated/shifted-year civil times and the first/last representable second of fixed zones, with and without offsets; (d) all format strings of <= 2 (3) tokens of C08's alphabet x 40 inputs (safety; outcome compared where the reference has an opinion); class = generator x accept/reject as decided by the reference",
+    "Accept/reject and the returned instant/femtoseconds must equal the reference matcher (documented semantics only; behaviours the documentation leaves open are don't-cares and checked for safety only).",
+    ["C09:boundary-product:accept", "C09:boundary-product:reject", "C09:specifier-boundaries:accept", "C09:specifier-boundaries:reject", "C09:edit-replace:reject", "C09:edit-delete:accept", "C09:zone-interaction:accept", "C09:zone-interaction:reject", "C09:safety-panel"],
+    TEXT_NOTE, min_eval=150000)
 CHECKS["C18"] = mk_simple("C18", "subsecond", "sub-second time points floor toward the past",
     "duration panel {int64 ns/us/ms/(1/3 s)/fs; int64 s; int32 min, h; int16 s, min; int8 s, min}: EVERY value of the int8/int16 representations; [-1e5,1e5] and both limits -+1000 for int32; for int64 sub-second reps whole seconds {-2,-1,0,1,+-59,+-60,+-3599..3601,+-86400,+-2^31, limits -+2..4} x remainders {0,1,2,ratio/2-1..+1,ratio-2,ratio-1,10^k-1,10^k,10^k+1} on both sides of zero; x zones {UTC, fixed -30 s, fixed +5:45}; on each: split_seconds, lookup, convert, format %E*S, %E*f, %E#S/%E#f for # in {0,1,2,3,6,9,12,14,15,16,18}; parse (via %s and via %Y-%m-%d %H:%M:%S) into {int64/int32/int16/int8 s, int8/int16/int32/int64 min, int32/int64 h, int64 days} for every second within +-2 h of the epoch and within +-(2 units+2) of both limits of each target; class = duration x sign x multiple/non-multiple x in/out of range",
     "128-bit floor division is the oracle: second = floor(count*num/den), remainder >= 0, fractional digits truncated (never rounded); parse into a coarse target = floor(sec/Num) if it fits the representation, otherwise false.",
